@@ -65,9 +65,12 @@ def run(ctx):
         def h(p):
             return structural_hash(canon(p, w.ref))
 
+        nan_some = H.draw(3) == 2  # a fitness function that is undefined (NaN) for some programs
+
         def ff_single(p):
             invocations.append(1)
-            return float(h(p) % 17)
+            x = h(p) % 17
+            return float("nan") if (nan_some and x % 5 == 3) else float(x)
 
         def ff_multi(p):
             invocations.append(1)
